@@ -53,7 +53,8 @@ def prepare():
 
 class Result(object):
     __slots__ = ('exit', 'out', 'err', 'events', 'crash', 'summary',
-                 'contracts', 'signal', 'timeout', 'wall', 'argv', 'incomplete')
+                 'contracts', 'signal', 'timeout', 'wall', 'argv', 'incomplete',
+                 'ccounts')
 
     def __init__(self):
         self.exit = None
@@ -68,6 +69,7 @@ class Result(object):
         self.wall = 0.0
         self.argv = None
         self.incomplete = None
+        self.ccounts = {}
 
     # -- convenience
     def mut(self):
@@ -121,6 +123,8 @@ def parse_log(data, res):
             res.summary = obj
         elif tag == b'C':
             res.contracts.append(obj)
+        elif tag == b'K':
+            res.ccounts = obj.get('counts', {})
     if res.events and 'r' not in res.events[-1]:
         res.incomplete = res.events[-1]['k']
 
@@ -151,6 +155,7 @@ def _child(script, argv, env, cwd, stdin_fd, out_fd, err_fd, logfd, world,
         sh = shim.install(world.R, world.mounts, world.uid, plan, logfd)
         if contracts:
             from . import contracts as _c
+            _c.SINK.reset()
             _c.bind(contracts, sh)
         import runpy
         try:
